@@ -315,6 +315,12 @@ def part_d(ctx, rng, n):
                 except Exception as e:  # noqa
                     got = "raises " + type(e).__name__
                 ctx.count(("d", fn, impl, name, tuple(keysets[0]), tuple(keysets[1]), envs[0].kind, envs[1].kind))
+                r = None
+                stk = sticky_nodes(jar)
+                if stk and got == sorted(want):
+                    ctx.oracle_failure("%s:%s:operand-left-pinned" % (impl, name), "%s/%s %s(%s%r, %s%r): %d stored node(s) of the operands are still pinned after the call returned" % (
+                        fn, impl, name, envs[0].kind, keysets[0], envs[1].kind, keysets[1], len(stk)), {"family": fn, "impl": impl, "fn": name, "kinds": [envs[0].kind, envs[1].kind], "keys": keysets})
+                    break
                 if got != sorted(want):
                     ctx.oracle_failure("%s:%s:on-evicted-operands" % (impl, name),
                                        "%s/%s %s(%s%r, %s%r) with both operands evicted from the cache -> %r, expected %r" % (
